@@ -27,8 +27,8 @@ IR_RUNS = {
                       ("MC", "naming", 1), ("MC", "body", 2)],
             "thorough": [("MC", "conn", 3), ("MC", "mirror", 2), ("MC", "mirror_add", 3), ("MC", "contain", 3),
                          ("MC", "body", 3), ("MC", "naming", 2), ("MC", "naming_edif", 2), ("MC", "naming_mix", 2)]},
-    "C10": {"quick": [("MC", "naming", 2), ("MC", "naming_edif", 2), ("MC", "naming_mix", 2), ("MC", "naming_two", 1)],
-            "thorough": [("MC", "naming", 3), ("MC", "naming_edif", 3), ("MC", "naming_mix", 3), ("MC", "naming_two", 2)]},
+    "C10": {"quick": [("MC", "naming", 2), ("MC", "naming_edif", 2), ("MC", "naming_mix", 2), ("MC", "naming_two", 1), ("MC", "naming_adopt", 2)],
+            "thorough": [("MC", "naming", 3), ("MC", "naming_edif", 3), ("MC", "naming_mix", 3), ("MC", "naming_two", 2), ("MC", "naming_adopt", 3)]},
 }
 IR_LISTENERS = {"C19": "A"}
 IR_RUNS.update({
